@@ -41,12 +41,17 @@ from fontTools.misc.vector import Vector
 
 LEVEL = "model_checking"
 ASSUMPTIONS = [
-    "lattice denominators <= 8 (16 for the solver in the thorough tier); master coordinates on the half lattice; more than 3 axes are not enumerated",
+    "lattice denominators <= 8 (16 for the solver in the thorough tier); master coordinates on the half lattice; more than 3 axes are not enumerated; 3-axis sets hold <= 3 non-default masters",
     "implementation floats are compared with |err| <= 1e-9*scale against exact Fractions; results that differ by less are considered equal",
-    "store histories: setSupports precedes the first store operation and finish() is the last builder operation (the builder is not used again after finish); depth bound as stated in the unit",
-    "IUP: integer coordinates and deltas from the stated alphabets, one or two contours plus the four phantom points; optimality of iup_delta_optimize is counted, not required",
-    "rebaseTent: in the two documented EPSILON-nudge configurations (one-sided tent whose peak is the new default) the open interval of width 1/16384 next to the default is exempt; everywhere else, including its end points, exact agreement is required",
-    "python's fractions/itertools are trusted; oracles/c09_ref.py is the specification transcription",
+    "VariationModel with extrapolate=True is only judged inside the bounding ranges of the masters (the specification defines no extrapolation); a particular tie-breaking of the box splitting is not required, only that masters are recovered",
+    "rebaseTent: tents with a jump strictly inside [-1,1] are outside the property's quantifier ('continuous over the axis range'): they are not judged at the jump point itself (there the solution is known to differ: counted in the evidence) "
+    "nor inside the documented 1/16384 nudge ramp next to the new default; everywhere else they are judged, under the class key solver:value:tent-with-jump-away-from-the-jump",
+    "renormalizeValue is compared with the fvar derivation inside the new range only (outside, rebaseTent relies on linear continuation, which the solver unit checks through the tent identity)",
+    "store histories: setSupports precedes the first store operation and finish() is the last builder operation (the builder is not used again after finish); integer deltas; 2 axes; depth bound as stated; "
+    "optimize(quantization=q) is allowed q/2 per delta; VarStore objects are re-built by replaying the history, never deep-copied",
+    "IUP: integer coordinates and deltas from the stated alphabets, one or two contours plus the four phantom points; optimality of iup_delta_optimize and the docstring's claim that the forced set is 'precise' "
+    "are counted, not required (with tolerance > 0 brute force finds forced points that are not necessary; only the size of the result suffers)",
+    "python's fractions/itertools are trusted; oracles/c09_ref.py is the specification transcription (OTVar region scalar, fvar normalisation, avar segment map, gvar inferred deltas)",
 ]
 
 EPS = 1e-9
@@ -76,8 +81,6 @@ def _flt(v, den):
     return v / den
 
 
-def _frac(v, den):
-    return F(v, den)
 
 
 class RefRegions:
@@ -625,7 +628,7 @@ REGIONS = [
     {"wdth": (0.0, 0.5, 1.0)},  # only ever inserted as an unused region (prune)
 ]
 # support lists (region ids; -1 is the empty base-master support that setSupports drops)
-SUPPORTS = [[0, 1], [1, 2, 3], [-1, 0, 1], [1, 0]]
+SUPPORTS = [[0, 1], [1, 2, 3], [-1, 1, 0], [-1, 0, 1]]
 VECTORS = [
     (0, 0, 0),
     (1, -1, 2),
@@ -686,7 +689,7 @@ def run_history(hist):
             idx = b.storeDeltasMany([list(v) for v in vecs])
             for i, v in enumerate(vecs):
                 obl.append((idx + i, cur, v))
-    return b, obl
+    return b, obl, cur
 
 
 def epochs_with_store(hist):
@@ -701,12 +704,14 @@ def epochs_with_store(hist):
     return n + has
 
 
-def store_state_key(b, cur_history):
-    st = b._store
+def store_state_key(st, cur):
+    """Canonical state of a builder, read from the store it hands out (finish(optimize=False)
+    only recomputes counts) plus the current support list of the model.  Two histories with
+    equal keys have equal futures: region list, VarData columns and rows, and the supports
+    in force are all a builder's behaviour depends on (its caches are functions of the rows)."""
     regs = tuple(tuple((a.StartCoord, a.PeakCoord, a.EndCoord) for a in r.VarRegionAxis) for r in st.VarRegionList.Region)
     datas = tuple((tuple(d.VarRegionIndex), tuple(tuple(i) for i in d.Item)) for d in st.VarData)
-    sup = None if b._supports is None else tuple(tuple(sorted(s.items())) for s in b._supports)
-    return [regs, datas, sup]
+    return [regs, datas, cur]
 
 
 def store_sanity(store, rec, tag):
@@ -787,8 +792,7 @@ def roundtrip(store):
 class StoreHistories(Unit):
     name = "store-histories"
     chunk = 12
-    rule = ("history exploration of OnlineVarStoreBuilder over 2 axes: every operation sequence of length <=4 (quick; <=5 thorough) that starts with setSupports, alphabet = setSupports(S1..S3 [S4 thorough]; "
-            "sharing regions, one with the base support, one permuted) | storeDeltas(6 vectors: zero, byte, byte extremes, word, word extremes, long) | storeDeltas(with leading base delta) | storeDeltasMany(2 [3] lists); "
+    rule = ("history exploration of OnlineVarStoreBuilder over 2 axes: every operation sequence of length <=4 (quick; <=5 thorough) that starts with setSupports, alphabet = setSupports(S1=[R0,R1] | S2=[R1,R2,R3] | S3=[base,R1,R0] (base support dropped, same regions as S1 permuted) [thorough: S4=[base,R0,R1], the VarData of S1 again]) | storeDeltas(6 vectors: zero, byte, byte extremes, word, word extremes, long) | storeDeltas(with leading base delta) | storeDeltasMany(2 [3] lists); "
             "then finish(optimize in {False,True}) followed by each of: nothing | compile+decompile | optimize(use_NO_VARIATION_INDEX in {True,False}) (+compile/decompile) | optimize(quantization=2) | "
             "subset_varidxes(every subset of the returned indices x retainFirstMap x advIdxes) | insert an unused region at 3 positions + prune_regions. "
             "Oracle: a list model of (returned index -> regions, vector); every index, through the returned maps, evaluates via VarStoreInstancer to the exact Fraction value of its vector at 20 lattice locations (8 for the subset variants) "
@@ -813,14 +817,15 @@ class StoreHistories(Unit):
         return {"depth": 4 if tier == "quick" else 5, "alphabet": store_ops(tier), "locations": len(SLOCS), "quantization": 2}
 
     def check(self, hist, rec):
-        b, obl = run_history(hist)
+        b, obl, cur = run_history(hist)
+        st0 = b.finish(optimize=False)
         rec.trace(1)
         rec.transition(1)  # the edge extending the parent history by its last operation
-        rec.state(store_state_key(b, hist))
+        skey = store_state_key(st0, cur)
+        rec.state(skey)
         idxs = sorted({o[0] for o in obl})
         # -- witnesses from the observable structure
-        st = b._store
-        keys = [tuple(d.VarRegionIndex) for d in st.VarData]
+        keys = [tuple(d.VarRegionIndex) for d in st0.VarData]
         if epochs_with_store(hist) > len(keys):
             rec.witness("existing VarData reused after setSupports")
         if len(keys) >= 2 and set(keys[0]) & set(keys[1]):
@@ -831,14 +836,12 @@ class StoreHistories(Unit):
             rec.nontrivial()
         for fin in (False, True):
             def fresh():
-                bb, _ = run_history(hist)
-                return bb.finish(optimize=fin)
+                return run_history(hist)[0].finish(optimize=fin)
 
             tag0 = "finish(optimize=%s)" % fin
-            store = fresh()
+            store = fresh() if fin else st0
             rec.transition(1)
-            before = [list(d.VarRegionIndex) for d in b._store.VarData]
-            if fin and [list(d.VarRegionIndex) for d in store.VarData] != before:
+            if fin and [tuple(d.VarRegionIndex) for d in store.VarData] != keys:
                 rec.witness("columns reordered by finish(optimize=True)")
             for d in store.VarData:
                 if d.NumShorts & 0x8000:
@@ -847,14 +850,13 @@ class StoreHistories(Unit):
                     rec.witness("word deltas")
             if not verify_store(store, obl, None, rec, tag0, "store:finish"):
                 return
-            rec.outcome(store_state_key(b, hist)[:2] + [fin])
+            rec.outcome(skey[:2] + [fin])
             if not verify_store(roundtrip(store), obl, None, rec, tag0 + " compiled+decompiled", "store:compile"):
                 return
             rec.transition(1)
             # ---- optimize
             for use_no in (True, False):
                 store = fresh()
-                nrows = sorted(tuple(i) for d in store.VarData for i in d.Item)
                 m = store.optimize(use_NO_VARIATION_INDEX=use_no)
                 rec.transition(1)
                 tag = tag0 + " optimize(use_NO_VARIATION_INDEX=%s)" % use_no
@@ -934,7 +936,7 @@ class StoreHistories(Unit):
 
 # ----------------------------------------------------------------- multi var store
 MREGIONS = [{"wght": (0.0, 0.5, 1.0)}, {"wght": (0.5, 1.0, 1.0)}, {"wght": (0.0, 1.0, 1.0), "wdth": (-1.0, -1.0, 0.0)}]
-MSUPPORTS = [[0, 1], [-1, 1, 2], [2]]
+MSUPPORTS = [[0, 1], [-1, 1, 0], [2, 1]]
 MVECS = [(0, 0), (1, -2), (300, 7), (-70000, 5)]
 MLOCS = [(F(a, 4), F(b, 2)) for a in range(0, 5) for b in range(-2, 3)]
 _MREGION_AT = [[R.region_scalar({"wght": a, "wdth": b}, {ax: tuple(F(x) for x in tri) for ax, tri in reg.items()}) for a, b in MLOCS] for reg in MREGIONS]
@@ -958,7 +960,7 @@ def run_multi(hist):
             vecs = tuple(MVECS[k[i % 2]] for i in range(len(cur)))
             idx = b.storeDeltas([Vector(v) for v in vecs])
             obl.append((idx, cur, vecs))
-    return b, obl
+    return b, obl, cur
 
 
 def multi_epochs_with_store(hist, obl):
@@ -1007,7 +1009,7 @@ def verify_multi(store, obl, idxmap, rec, tag, fkey, only=None):
 class MultiStoreHistories(Unit):
     name = "multistore-histories"
     chunk = 16
-    rule = ("history exploration of OnlineMultiVarStoreBuilder (2-vectors per region): every operation sequence of length <=4 (5 thorough) starting with setSupports, alphabet = setSupports(3 lists, one with the base support) | "
+    rule = ("history exploration of OnlineMultiVarStoreBuilder (2-vectors per region): every operation sequence of length <=4 (5 thorough) starting with setSupports, alphabet = setSupports([R0,R1] | [base,R1,R0] | [R2,R1]) | "
             "storeDeltas(7 items over zero/byte/word/long 2-vectors); then finish() followed by nothing | subset_varidxes(every subset of the returned indices) (which prunes regions). Oracle: every returned index evaluates through "
             "MultiVarStoreInstancer, via the returned map, to the exact value of its vectors at 25 lattice locations; all-zero items return NO_VARIATION_INDEX (empty vector)")
     required_witnesses = ("all-zero item -> NO_VARIATION_INDEX", "existing MultiVarData reused", "subset dropped a MultiVarData", "subset pruned a region")
@@ -1025,14 +1027,14 @@ class MultiStoreHistories(Unit):
         return {"depth": 4 if tier == "quick" else 5, "alphabet": multi_ops(), "locations": len(MLOCS)}
 
     def check(self, hist, rec):
-        b, obl = run_multi(hist)
+        b, obl, cur = run_multi(hist)
+        st = b.finish()  # only recomputes the counts
         rec.trace(1)
         rec.transition(1)
-        st = b._store
         rec.state([
             tuple(tuple((a.AxisIndex, a.StartCoord, a.PeakCoord, a.EndCoord) for a in r.SparseVarRegionAxis) for r in st.SparseVarRegionList.Region),
             tuple((tuple(d.VarRegionIndex), tuple(tuple(i) for i in d.Item)) for d in st.MultiVarData),
-            None if b._supports is None else tuple(tuple(sorted(s.items())) for s in b._supports),
+            cur,
         ])
         if obl:
             rec.nontrivial()
@@ -1040,15 +1042,14 @@ class MultiStoreHistories(Unit):
             rec.witness("all-zero item -> NO_VARIATION_INDEX")
         if multi_epochs_with_store(hist, obl) > len(st.MultiVarData):
             rec.witness("existing MultiVarData reused")
-        store = b.finish()
+        store = st
         rec.transition(1)
         if not verify_multi(store, obl, None, rec, "finish()", "multistore:finish"):
             return
         idxs = sorted({o[0] for o in obl if o[0] != MVS.NO_VARIATION_INDEX})
         for r in range(0, len(idxs) + 1):
             for sub in itertools.combinations(idxs, r):
-                bb, _ = run_multi(hist)
-                store = bb.finish()
+                store = run_multi(hist)[0].finish()
                 n0, r0 = len(store.MultiVarData), len(store.SparseVarRegionList.Region)
                 m = store.subset_varidxes(set(sub) | {MVS.NO_VARIATION_INDEX})
                 rec.transition(1)
@@ -1076,8 +1077,8 @@ PHANTOM_D = [(0, 0), (1, 0), (0, 0), (0, 0)]
 class Iup(Unit):
     name = "iup"
     chunk = 2
-    rule = ("IUP: contours of n<=3 points over a 6-point coordinate alphabet (incl. repeated, collinear, equal-x/equal-y points) and n=4 over the first 4 (quick; all 6 and n=5 over 4: thorough), as one contour or split in two, + 4 phantom points; "
-            "x every delta vector over a 6-delta alphabet (quick: 4 for split 3-point outlines, 3 for n=4; thorough: 4 for n=5) x tolerance {0,0.5,1}. Oracle: exact Fraction IUP from the gvar specification. For all 2^n explicit-point subsets iup_delta == reference; "
+    rule = ("IUP: outlines of n points over a 6-point coordinate alphabet (incl. repeated, collinear, equal-x/equal-y points) x every delta vector over a 6-delta alphabet, as one contour and/or split in two contours, + 4 phantom points; "
+            "families (n, coordinate atoms, delta atoms, contours): quick (1,6,6,one) (2,6,6,both) (3,6,6,one) (3,6,4,two) (4,4,3,one); thorough (1,6,6,one) (2,6,6,both) (3,6,6,both) (4,6,4,one) (4,4,4,two) (5,4,3,one); x tolerance {0,0.5,1}. Oracle: exact Fraction IUP from the gvar specification. For all 2^n explicit-point subsets iup_delta == reference; "
             "iup_delta_optimize never changes an explicit delta, its result re-inferred by the reference is within tolerance (Euclidean) of every original delta and it raises no AssertionError (forced set inside the solution); "
             "non-minimal results and forced points that brute force shows unnecessary are counted only; TupleVariation.optimize (quick: tolerance 0.5 for n<=3; thorough: all) keeps the optimised form only if its compiled size is smaller and never changes values; distinct = each (coords, contours, deltas, tolerance)")
     required_witnesses = ("IUP dropped at least one delta", "optimizer kept every delta", "forced set non-empty", "forced set empty with deltas kept (circular DP)",
@@ -1085,30 +1086,23 @@ class Iup(Unit):
                           "TupleVariation.optimize adopted the optimised form", "two contours")
 
     def spec(self, tier):
-        # (n, number of coordinate atoms, number of delta atoms, split into two contours too)
+        # (n, number of coordinate atoms, number of delta atoms, "single" contour | "split" in two | "both")
         if tier == "quick":
-            return [(1, 6, 6, False), (2, 6, 6, True), (3, 6, 6, True), (4, 4, 3, False)]
-        return [(1, 6, 6, False), (2, 6, 6, True), (3, 6, 6, True), (4, 6, 6, True), (5, 4, 4, False)]
+            return [(1, 6, 6, "single"), (2, 6, 6, "both"), (3, 6, 6, "single"), (3, 6, 4, "split"), (4, 4, 3, "single")]
+        return [(1, 6, 6, "single"), (2, 6, 6, "both"), (3, 6, 6, "both"), (4, 6, 4, "single"), (4, 4, 4, "split"), (5, 4, 3, "single")]
 
     def cases(self, tier, seed):
-        for n, nc, nd, split in self.spec(tier):
+        for n, nc, nd, which in self.spec(tier):
             tv = 2 if tier != "quick" else (1 if n <= 3 else 0)
+            ends_list = [[n - 1]] if which in ("single", "both") else []
+            if which in ("split", "both"):
+                ends_list += [[k - 1, n - 1] for k in range(1, n)]
             for cs in itertools.product(range(nc), repeat=n):
-                ends_list = [[n - 1]]
-                if split:
-                    ends_list += [[k - 1, n - 1] for k in range(1, n)]
                 for ends in ends_list:
-                    if tier == "quick" and n >= 3 and len(ends) > 1:
-                        yield [list(cs), ends, 4, -1, tv]
-                    elif n >= 4 and nd == 6:
-                        # cut the delta space of one coordinate tuple into 6 cases
-                        for d0 in range(nd):
-                            yield [list(cs), ends, nd, d0, tv]
-                    else:
-                        yield [list(cs), ends, nd, -1, tv]
+                    yield [list(cs), ends, nd, -1, tv]
 
     def bounds(self, tier, seed):
-        return {"sizes(n, coord atoms, delta atoms, split)": self.spec(tier), "points": IUP_POINTS, "deltas": IUP_DELTAS, "tolerances": IUP_TOLS,
+        return {"families(n, coord atoms, delta atoms, contours)": self.spec(tier), "points": IUP_POINTS, "deltas": IUP_DELTAS, "tolerances": IUP_TOLS,
                 "phantom": [PHANTOM_C, PHANTOM_D]}
 
     def check(self, case, rec):
